@@ -21,3 +21,28 @@ Definition rstrip (sp : cset) (t : text) : text := rev (lstrip sp (rev t)).
 Definition strip (sp : cset) (t : text) : text := rstrip sp (lstrip sp t).
 
 Definition all_space (sp : cset) (t : text) : bool := forallb (fun c => cmem c sp) t.
+
+(* every maximal run of str.isspace() characters becomes one blank *)
+Fixpoint collapse_go (sp : cset) (in_run : bool) (t : text) : text :=
+  match t with
+  | [] => []
+  | c :: t' =>
+      if cmem c sp
+      then (if in_run then collapse_go sp true t' else 32%N :: collapse_go sp true t')
+      else c :: collapse_go sp false t'
+  end.
+(* ' '.join(t.split()): leading and trailing white space dropped, every inner run one blank.
+   One left-to-right pass: before the first word / inside a word / in the gap after a word. *)
+Inductive js_state := JsStart | JsWord | JsGap.
+Fixpoint js_go (sp : cset) (st : js_state) (t : text) : text :=
+  match t with
+  | [] => []
+  | c :: t' =>
+      if cmem c sp
+      then js_go sp (match st with JsStart => JsStart | _ => JsGap end) t'
+      else match st with
+           | JsGap => 32%N :: c :: js_go sp JsWord t'
+           | _ => c :: js_go sp JsWord t'
+           end
+  end.
+Definition join_split (sp : cset) (t : text) : text := js_go sp JsStart t.
